@@ -199,15 +199,17 @@ def judge(result, peer, closed_by_us_in_teardown=True):
         if xend:
             xe = xend[0]
             late = [n for n in notifies if n["s"] > xe["s"]]
-            # which API call brought the cancelled call back: a blocking wait that ended after the cancel, or not
-            via = ":via-block" if any(e["k"] == "bend" and e["s"] > xe["s"] for e in es) else ""
-            if late:
-                F.append(Finding("cancelled-call-notified" + via, "call %d was notified (seq %d) after dbus_pending_call_cancel had returned (seq %d)"
-                                 % (idx, late[0]["s"], xe["s"]), idx))
+            # which API call brought the cancelled call back: a blocking wait that ended after the cancel began, or not
+            via = ":via-block" if any(e["k"] == "bend" and e["s"] > xbeg[0]["s"] for e in es) else ""
             if xe["a"] == 0:
-                # not complete when cancel returned: "no reply is received"
-                if notifies and not late:
-                    F.append(Finding("cancelled-call-notified" + via, "call %d was notified although it was incomplete when cancel returned" % idx, idx))
+                # incomplete when cancel returned: "no reply is received" - no notification, no completion, ever.
+                # (When the call was already complete at that moment, the one notification of that completion may
+                # still be in flight in another thread and is legitimate: "unless the reply was already received
+                # before you canceled".)
+                if notifies:
+                    F.append(Finding("cancelled-call-notified" + via, "call %d was incomplete when dbus_pending_call_cancel returned "
+                                     "(seq %d) and its notify function was called (seq %d, %s cancel returned)"
+                                     % (idx, xe["s"], notifies[0]["s"], "after" if late else "logged before"), idx))
                 comp_after = [o for o in obs if o[2] == 1]
                 if comp_after or completed_end or steals:
                     F.append(Finding("completed-after-cancel" + via, "call %d was incomplete when dbus_pending_call_cancel returned and was "
@@ -231,7 +233,8 @@ def judge(result, peer, closed_by_us_in_teardown=True):
             F.append(Finding("notify-missing", "call %d completed after a notify function had been set, and the function was never called" % idx, idx))
 
         # ---- a call with no timeout on a healthy connection can only complete with the peer's reply
-        if not cancelled and not is_finite(timeout_ms) and not peer_closed and not ever_completed and peer.by_serial.get(serial):
+        if not cancelled and not is_finite(timeout_ms) and not peer_closed and not ever_completed and peer.by_serial.get(serial) \
+                and result.get("fin"):      # the barrier reply was dispatched, so everything written before it was too
             if any(m_idx == idx for _, _, m_idx, _ in peer.by_serial[serial]):
                 F.append(Finding("reply-lost", "the peer replied to call %d (serial %d), the connection was dispatched until idle, and the "
                                  "call never completed" % (idx, serial), idx))
@@ -239,8 +242,15 @@ def judge(result, peer, closed_by_us_in_teardown=True):
         # ---- bounded progress: judged by the caller (needs the solo re-run); reported here as a condition
         if not cancelled and not completed_end and (is_finite(timeout_ms) or disc_seen):
             cnt["must-complete-but-incomplete"] += 1
-            F.append(Finding("INCOMPLETE", "call %d (timeout %d ms, peer closed: %s) still incomplete after %s ms of dispatching"
-                             % (idx, timeout_ms, disc_seen, result.get("run_ms")), idx))
+            if result.get("quiescent"):
+                # not a matter of waiting: the connection is lost, its Disconnected signal was dispatched, nothing is
+                # queued and no timeout is registered - no event can complete this call any more
+                F.append(Finding("never-completed:after-disconnect", "call %d (serial %d, timeout %d ms) was outstanding when the "
+                                 "connection was lost; the connection was dispatched until the Disconnected signal had been "
+                                 "delivered and no event source was left, and the call never completed" % (idx, serial, timeout_ms), idx))
+            else:
+                F.append(Finding("INCOMPLETE", "call %d (timeout %d ms, peer closed: %s) still incomplete after %s ms of dispatching"
+                                 % (idx, timeout_ms, disc_seen, result.get("run_ms")), idx))
         pk = "none"
         ps = peer.by_serial.get(serial, [])
         if ps:
